@@ -44,6 +44,9 @@ type KnownFinding struct {
 	Input      string `json:"input_or_site"`
 	Status     string `json:"status"` // open | fixed
 	Commit     string `json:"commit,omitempty"`
+	// inputs of the function's replay harness that exhibit this finding: when the contract no longer resolves against
+	// changed code and the harness is the only judge left, exactly these inputs are reported as the known finding
+	ReplayInputs []string `json:"replay_inputs,omitempty"`
 }
 
 func verifDir() string {
@@ -512,6 +515,31 @@ func cmdCheck(args []string) int {
 						fails = append(fails, strings.TrimSpace(l[i+9:]))
 					}
 				}
+				var fresh []string
+				knownHit := map[string]KnownFinding{}
+			nextFail:
+				for _, f := range fails {
+					inp := f
+					if j := strings.Index(f, " got="); j >= 0 {
+						inp = f[:j]
+					}
+					for _, k := range knownOpen {
+						if !strings.HasPrefix(k.Obligation, r.Key+"#") {
+							continue
+						}
+						for _, ki := range k.ReplayInputs {
+							if ki == inp {
+								knownHit[k.Obligation] = k
+								continue nextFail
+							}
+						}
+					}
+					fresh = append(fresh, f)
+				}
+				for name, k := range knownHit {
+					fmt.Printf("KNOWN-FINDING: property=%s %s (%s, by replay input)\n", id, k.What, name)
+				}
+				fails = fresh
 				if len(fails) > 0 {
 					violations++
 					os.MkdirAll(replayDir, 0o755)
